@@ -403,7 +403,13 @@ Section WithFacts.
       let cfg3 := set_require_all cfg2 (truthy (getd "require_all" (VBool (c_require_all (x_cfg x))))) in
       (* the child resolves a schema given by name; anything that is not a mapping fails in .copy() *)
       (* a name that is not in the schema registry: _SchemaRuleTypeError in the child, ignored by the container dispatch *)
-      match sch, resolve_schema (x_cfg x) sch with
+      (* ... a name that is not the name of a schema is looked up among the rules sets (held against the mapping as the inline
+         definition would be) *)
+      let resolved := match sch, resolve_schema (x_cfg x) sch with
+                      | VStr _, None => resolve_rules_set (x_cfg x) sch
+                      | _, r => r
+                      end in
+      match sch, resolved with
       | _, Some (VDict schd) =>
           let cx := nchild x (n_map ns) cfg3 schd d [field] [field; KStr "schema"] in
           match childn cx with
@@ -475,7 +481,11 @@ Section WithFacts.
             match assoc_get f (n_map ns) with
             | None => Ok ns
             | Some v =>
-                do rules <- rs_rules (assoc_get f rsch);
+                (* an unknown field's containers are normalized against the rules for unknown fields *)
+                do rules <- match assoc_get f rsch, unknown_rules x with
+                            | None, Some d => Ok d
+                            | r, _ => rs_rules r
+                            end;
                 let has r := assoc_mem (KStr r) rules in
                 let get r := match assoc_get (KStr r) rules with Some c => c | None => VNone end in
                 match v with
